@@ -48,6 +48,10 @@ func (f *Typep) Call(s *slip.Scope, args slip.List, depth int) slip.Object {
 	slip.CheckArgCount(s, depth, f, args, 2, 2)
 	sym, ok := args[1].(slip.Symbol)
 	if !ok {
+		if args[1] == slip.True {
+			// Every object is of type t.
+			return slip.True
+		}
 		slip.TypePanic(s, depth, "type", args[1], "symbol")
 	}
 	switch ta := args[0].(type) {
